@@ -116,6 +116,8 @@ KINDS = {
     'err_syntax_update': ('update set a2 = a1 +', {}),
     # missing-looking values in aggregates: None from short records, NaN from the text 'nan'
     'agg_ragged_none': ('select MIN(a3), MAX(a3), COUNT(a3)', {'ragged': True}),
+    'agg_avg_ints': ('select a2, AVG(a1), VARIANCE(a1) group by a2', {'int_cells': True}),
+    'agg_sum_ints': ('select SUM(a1), MIN(a1), MAX(a1), MEDIAN(a1)', {'int_cells': True}),
     'agg_nan': ('select MIN(a1), MAX(a1)', {'nan_values': True}),
     'agg_nan_group': ('select a2, MAX(a1), MIN(a1) group by a2', {'nan_values': True}),
 }
@@ -137,6 +139,10 @@ def gen_op(rng, kind=None, api=None, max_rows=6, pool=40):
     if opt.get('floats'):
         for r in rows:
             r[0] = rng.choice(['1', '2.5', '3', '0.5', '10', '2'])
+    if opt.get('int_cells'):
+        # cells that are numbers already (a list table built by a program), not numeric strings
+        for r in rows:
+            r[0] = rng.choice([1, 2, 3, 10, 2.5, 7])
     if opt.get('nan_values'):
         for r in rows:
             r[0] = rng.choice(['nan', '3', '1', 'nan', '2.5', 'inf'])
@@ -174,6 +180,8 @@ def gen_op(rng, kind=None, api=None, max_rows=6, pool=40):
         # the data has a header line but the front-end is told it has none: only the WITH modifier makes it one
         op['rows'] = [['id', 'name', 'tag']] + rows
         op.pop('header', None)
+    if opt.get('int_cells') and op['api'] not in ('table', 'iter'):
+        op['api'] = 'table'
     if opt.get('header_names'):
         op['header'] = list(opt['header_names'])
         op['normalize'] = False
@@ -492,7 +500,8 @@ def child_single(op):
 
 
 def module_state(t):
-    return [bool(t.engine.debug_mode), bool(t.csv.debug_mode)]
+    # (a tree that keeps these flags elsewhere simply has nothing to show here; what it does then shows in the outcomes)
+    return [bool(getattr(t.engine, 'debug_mode', False)), bool(getattr(t.csv, 'debug_mode', False))]
 
 
 _UNKNOWN_COLUMN = re.compile(r'Unable to find column "[^"]*"')
